@@ -317,6 +317,8 @@ class Ctx:
         return r
 
     def validate(self, module, cases, **kw):
+        # generous in the thorough tier: the machine may be shared with other checks while it runs
+        kw.setdefault("timeout", 3600 if self.thorough else 1200)
         verdicts, st = validate(module, cases, self.scratch, **kw)
         self.states += st["states"]
         self.transitions += st["states"]
